@@ -92,22 +92,17 @@ class GotranPythonCodePrinter(PythonCodePrinter):
         return "".join(result)
 
     def _print_And(self, expr):
-        if len(expr.args) == 2:
-            value = f"numpy.logical_and({self._print(expr.args[0])}, {self._print(expr.args[1])})"
-        else:
-            args = ", ".join(self._print(arg) for arg in expr.args)
-            value = f"numpy.logical_and.reduce(({args}))"
-
+        # Nest the binary function so that it works for any number of
+        # operands, for operands of different shapes and in jax
+        value = self._print(expr.args[0])
+        for arg in expr.args[1:]:
+            value = f"numpy.logical_and({value}, {self._print(arg)})"
         return value
 
     def _print_Or(self, expr):
-        # value = super()._print_Or(expr)
-        if len(expr.args) == 2:
-            value = f"numpy.logical_or({self._print(expr.args[0])}, {self._print(expr.args[1])})"
-        else:
-            args = ", ".join(self._print(arg) for arg in expr.args)
-            value = f"numpy.logical_or.reduce(({args}))"
-
+        value = self._print(expr.args[0])
+        for arg in expr.args[1:]:
+            value = f"numpy.logical_or({value}, {self._print(arg)})"
         return value
 
     # def _print_Equality(self, expr):
